@@ -59,3 +59,34 @@ PROPS['C02'] = dict(
     min_obs={'quick': {'getter_comparisons': 20000}, 'thorough': {'getter_comparisons': 20000}},
     timeout={'quick': 900, 'thorough': 6*3600},
 )
+
+PROPS['C03'] = dict(
+    runs=[run('plain')], shards=16, watchdog=True, level='exploration',
+    rule=('round trips through every encoder: Ethernet/IPv4|IPv6/UDP chains composed exactly as the send paths do (AppendPayload and SetPayload '
+          'variants, payload lengths 0..MTU, all UDP port classes), Ethernet/IP AppendPayload with raw protocols, ARP, ICMP echo, DHCPv4 with '
+          'PRNG option maps (0..11 options of length 0..254, arbitrary requested-parameter orders incl. router-before-mask and repeats, reused '
+          'dirty buffers of capacity 300..1500), DNS queries with 1..6 labels, NDP NS/NA marshal; each result decoded by refdec (ground truth = '
+          'the generator inputs) and by the library views / Session.Parse; capacity stream: AppendPayload on IPv4/IPv6/UDP into canary-guarded '
+          'buffers whose remaining capacity is smaller/equal/larger than the payload. Non-trivial = a completed round trip; distinct = '
+          '(encoder chain, family, length bucket, class / option-set shape)'),
+    assumptions=['refdec decoders are the trusted oracle (self-tested against x/net)',
+                 'inputs outside documented preconditions (buffers below the documented minimum, option values > 255 bytes, option sets > 1 KiB) are '
+                 'exercised in a separate robustness stream whose panics are observations only'],
+    min_obs={'quick': {}, 'thorough': {}},
+    timeout={'quick': 900, 'thorough': 6*3600},
+)
+
+PROPS['C16'] = dict(
+    runs=[run('go126-hooks', pkg='checks16'), run('go126-nohooks', pkg='checks16', hooks=False),
+          run('go123-hooks', pkg='checks16', tool='go'), run('go123-nohooks', pkg='checks16', tool='go', hooks=False)],
+    shards=8, watchdog=False, level='exploration',
+    rule=('well-formed frames (reference decoder reports no error) of every EtherType / IP protocol / UDP port class, both address families, '
+          'sources own / router / multicast / broadcast / client on and off LAN, with and without VLAN tags and padding, placed in an EthMaxSize '
+          'buffer: after one warm-up Parse (a) every view must start at &buf[offset] for the reference offset, end inside the frame, and a '
+          'write through view or buffer must be visible on the other side; (b) testing.AllocsPerRun(100, Parse) must be 0. Repeated under four '
+          'builds: go1.26.8 and go1.23.5, verif tag on and off. Non-trivial = allocation measured on an accepted frame; distinct = '
+          '(PayloadID, L3 family, source MAC class, tracked / untracked-by-rule)'),
+    assumptions=['runtime allocation counters (testing.AllocsPerRun, GOMAXPROCS 1) are exact', 'refdec offsets are the trusted oracle'],
+    min_obs={'quick': {'alloc_measurements': 2000, 'views_checked': 8000}, 'thorough': {'alloc_measurements': 2000}},
+    timeout={'quick': 900, 'thorough': 3*3600},
+)
